@@ -35,8 +35,17 @@ class ExprMixin:
             raise Unsupported('boolean expected, got %r' % (v,))
         return v
 
+    def as_ref(self, v):
+        """address of an embedded struct (a Python-level field pointer) as a term: an injective function of the
+        enclosing reference"""
+        if isinstance(v, PtrV) and v.kind == 'field' and is_term(v.a):
+            f = T.UF('addr_%s_%s' % (v.b.rsplit('/', 1)[-1], '.'.join(v.path)), [T.INT], T.INT)
+            return f(v.a)
+        return v
+
     def eval_int(self, ast, env):
         v, t = self.eval(ast, env)
+        v = self.as_ref(v)
         if not is_term(v) or T.sort_of(v) != T.INT:
             raise Unsupported('integer expected, got %r' % (v,))
         return v
@@ -334,6 +343,8 @@ class ExprMixin:
             return self.uf_implements(x, full), None
         if name == 'ptr':
             x, tn = self.eval(args[0], env)
+            if isinstance(x, PtrV):
+                return self.as_ref(x), None
             if len(args) == 2:
                 return self.uf_pay(x), self.type_from_ast(args[1], env)
             if is_term(x) and x in self.iface_static:
